@@ -1233,6 +1233,33 @@ class Interp:
                     mod.add(pl['l'])
                     if not pl['p']:
                         assigned.add(pl['l'])
+        # a pointer temporary that is itself (re)assigned inside the loop and written through, e.g. the raw pointer copied
+        # out of a Box for `(*p)[i] = v`: the object written is the one the temporary was copied / borrowed from
+        changed = True
+        while changed:
+            changed = False
+            for b in body:
+                for s in fn.blocks[b]['stmts']:
+                    if s[0] != 'assign' or s[1]['p'] or s[1]['l'] not in deref_written:
+                        continue
+                    rv = s[2]
+                    src = None
+                    if rv[0] == 'use' and rv[1][0] in ('copy', 'move'):
+                        src = rv[1][1]
+                    elif rv[0] == 'cast' and isinstance(rv[2], list) and rv[2][0] in ('copy', 'move'):
+                        src = rv[2][1]
+                    elif rv[0] in ('ref', 'rawptr') and len(rv) > 2:
+                        src = rv[2]
+                    if not isinstance(src, dict):
+                        continue
+                    root = src['l']
+                    if any(e[0] == 'deref' for e in src['p']):
+                        if root not in deref_written:
+                            deref_written.add(root)
+                            changed = True
+                    elif root not in mod:
+                        mod.add(root)
+                        changed = True
         return (sorted(mod), sorted(deref_written), assigned)
 
     def havoc(self, st, fr, hav, head, inst=0):
